@@ -19,6 +19,8 @@ let n_of_int k = if k = 0 then N0 else Npos (pos_of_int k)
 let rec int_of_pos = function XH -> 1 | XO p -> 2 * int_of_pos p | XI p -> 2 * int_of_pos p + 1
 let int_of_n = function N0 -> 0 | Npos p -> int_of_pos p
 let rec nat_of_int k = if k = 0 then O else S (nat_of_int (k-1))
+let rec pos_len = function XH -> 1 | XO q | XI q -> 1 + pos_len q
+let w_big p = pos_len p > 12
 let rec int_of_nat = function O -> 0 | S k -> 1 + int_of_nat k
 let digits_of_string s = List.init (String.length s) (fun i -> n_of_int (Char.code s.[i]))  (* ASCII digit codes, as digits_val expects c - 48 *)
 let string_of_digits ds = String.concat "" (List.map (fun d -> string_of_int (int_of_n d)) ds)
@@ -152,6 +154,25 @@ let () =
           so out ^ "|" ^ String.concat "," (List.map so vs) ^ "|" ^ String.concat "," (List.map so fs) ^ "|" ^
           String.concat "," (List.sort compare (List.map (fun (d, t) -> show_str d ^ "#" ^ string_of_int (int_of_n t)) lst)) in
         Printf.printf "%s %s\n" id (String.concat " ; " (List.map line res))
+    | L [A "re"; A id; ast; _; hay; rep; lim] ->
+        let rec re_of = function
+          | L [A "e"] -> REmpty | L [A "c"; A k] -> RChar (n_of_int (int_of_string k)) | L [A "any"] -> RAny
+          | L (A "cls" :: A neg :: rs) -> RClass (neg = "1", List.map (function L [A lo; A hi] -> (n_of_int (int_of_string lo), n_of_int (int_of_string hi)) | _ -> failwith "range") rs)
+          | L [A "seq"; a; b] -> RSeq (re_of a, re_of b) | L [A "alt"; a; b] -> RAlt (re_of a, re_of b)
+          | L [A "star"; a] -> RStar (re_of a) | L [A "plus"; a] -> RPlus (re_of a) | L [A "opt"; a] -> ROpt (re_of a)
+          | L [A "grp"; A i; a] -> RGroup (nat_of_int (int_of_string i), re_of a) | L [A "ncg"; a] -> re_of a
+          | L [A "bol"] -> RBol | L [A "eol"] -> REol | _ -> failwith "re" in
+        let r = re_of ast and h = cps hay and t = cps rep in
+        let lim_nat = match value lim with
+          | VNum f -> (match usize_from f with Z0 -> 0 | Zpos p -> (let rec cap p acc w = if acc > 1000 then 1000 else match p with XH -> acc + w | XO q -> cap q acc (2*w) | XI q -> cap q (acc + w) (2*w) in if w_big p then 1000 else cap p 0 1) | Zneg _ -> 0)
+          | _ -> failwith "lim" in
+        let strs l = "(a" ^ String.concat "" (List.map (fun x -> " " ^ show_str x) l) ^ ")" in
+        let out k =
+          let kk = nat_of_int k in
+          Printf.sprintf "M=(b %d) F=%s C=%s P=%s L=%s" (if re_is_match kk r h then 1 else 0) (strs (re_find kk r h)) (strs (re_capture kk r h))
+            (show_str (re_replace kk r h t O)) (show_str (re_replace kk r h t (nat_of_int lim_nat))) in
+        let a = out 1 and b = out 2 in
+        if a = b then Printf.printf "%s %s\n" id a else Printf.printf "%s UNMODELLED(fuel)\n" id
     | L [A "uniclass"; A id; A lo; A hi] ->
         let lo = int_of_string lo and hi = int_of_string hi in
         let ranges p =
